@@ -214,3 +214,19 @@ def nextDraw (draw : Nat → β) : StateT Nat (Except Err) β := do
 def peekDraw (draw : Nat → β) : StateT Nat (Except Err) β := do
   return draw (← get)
 end Py
+
+/-! ## Multitask: the objects `execute` iterates over and the dict `__run__` returns, as the source builds them -/
+namespace Multi
+/-- an optimizer / task object as `Multitask` sees it: its identity (the position in the constructor's list) and its `name` -/
+structure Obj where
+  idx : Nat
+  name : String
+deriving DecidableEq, Repr
+
+/-- `{"id_trial": …, "solution": …, "problem_name": …}` -/
+structure RunDict (ρ : Type) where
+  id_trial : Int
+  solution : ρ
+  problem_name : String
+deriving Repr
+end Multi
